@@ -709,7 +709,7 @@ def op_export(env):
     elif variant == 'explicit-auto':
         name, opts = 'geom' + ext, [flag, 'auto']
     elif variant == 'unknown-extension':
-        name, opts = 'geom' + pick(rng, ['.txt', '.nc', '', '.xyz', '.geo', '.shapefile']), pick(rng, [[], [flag, 'auto']])
+        name, opts = 'geom' + pick(rng, ['.txt', '.nc', '', '.xyz', '.geo', '.shapefile', '.ndjson', '.topojson', '_as_json', '_wkt', '.shpx', '.xwkb']), pick(rng, [[], [flag, 'auto']])
         expect_error = 'output extension from which no format can be guessed'
     else:
         name, opts = 'geom' + ext, [flag, pick(rng, ['kml', 'gml', 'GeoJSON', 'shp', 'json', ''])]
